@@ -129,6 +129,10 @@ def witness_search(tier, seed):
 from pyvc.xcheck import MsdTextProbe   # noqa: E402
 THOROUGH_BOUNDED = [MsdTextProbe()]
 
+# tables the statement pins down by value (props/constants_common.py)
+from props.constants_common import ClosedConstants   # noqa: E402
+UNITS = list(UNITS) + [ClosedConstants('sm-chart-fields', 'multi-value-properties')]
+
 
 # supplier units (see props/suppliers.py): load -> save -> load goes through every loader and through __str__
 from props import suppliers as _S   # noqa: E402
